@@ -71,13 +71,37 @@ def run_history(payloads, via=None, bystander=None):
             frames = hdlc.HdlcFrameReader(False).read(wire_) if wire_ else []
             ok = len(frames) == 1 and frames[0].payload == p and frames[0].is_valid == (form != "hdlc-badfcs")
             form = "hdlc" if ok else None
-        if form == "dlms":
+        if form == "p1":
+            # the payload as the data block of a DataReadout object: the P1 decoder then works on the readout, the others on its payload
+            ro = None
+            if p and b"!" not in p and p[:1] not in b" \t\r\n\x0b\x0c":
+                try:
+                    ro = dlde.DataReadout(b"/ABC5x\r\n" + p + b"!\r\n")
+                except (ValueError, IndexError):
+                    ro = None
+            if ro is not None and ro.payload == p:
+                acc = list(acc)
+                try:
+                    d = dlde.decode_p1_readout(ro)
+                    acc[DECODER_NAMES.index("P1")] = dict(d) if isinstance(d, dict) else None
+                except Exception:  # noqa: BLE001 - a decoder that raises does not accept
+                    acc[DECODER_NAMES.index("P1")] = None
+            else:
+                form = None
+        if form == "p1":
+            res = guarded(ad.decode_message, ro, what="AutoDecoder.decode_message(DataReadout)")
+        elif form == "dlms":
             res = guarded(ad.decode_message, DlmsMessage(p), what="AutoDecoder.decode_message(DlmsMessage)")
         elif form == "hdlc":
             res = guarded(ad.decode_message, frames[0], what="AutoDecoder.decode_message(HdlcFrame)")
         else:
             res = guarded(ad.decode_message_payload, p, what="AutoDecoder.decode_message_payload")
-        tres = guarded(twin.decode_message_payload, p, what="AutoDecoder.decode_message_payload") if p else None
+        if form == "p1":  # the twin gets an equal readout object, so that both remember the same decoder afterwards
+            tres = guarded(twin.decode_message, dlde.DataReadout(b"/ABC5x\r\n" + p + b"!\r\n"), what="AutoDecoder.decode_message(DataReadout)")
+            if tres != res or twin.previous_success_decoder != ad.previous_success_decoder:
+                fail(f"step {step}: two AutoDecoders with the same history disagree on equal DataReadout objects: {res!r:.100} / {ad.previous_success_decoder} vs {tres!r:.100} / {twin.previous_success_decoder}", sig="twin-disagrees")
+        else:
+            tres = guarded(twin.decode_message_payload, p, what="AutoDecoder.decode_message_payload") if p else None
         name = guarded(lambda: ad.previous_success_decoder)
         ctx = f"step {step} of {len(payloads)} (payload {p.hex()[:60]}.., {len(p)} bytes, remembered before: {DECODER_NAMES[remembered] if remembered is not None else None})"
         if form in ("dlms", "hdlc") and p and (res != tres or name != twin.previous_success_decoder):
@@ -203,7 +227,7 @@ def history_st(draw):
             items.append(("mut/" + nm, c15._mutate(ALL[nm], draw(st.lists(c15._op, min_size=1, max_size=3)))))
         else:
             items.append(("junk/random", draw(st.binary(max_size=40))))
-    via = [draw(st.sampled_from([None, None, "dlms", "hdlc", "hdlc-badfcs", "hdlc-seg"])) for _ in range(min(len(items), 40))] + [None] * max(0, len(items) - 40)
+    via = [draw(st.sampled_from([None, None, "dlms", "hdlc", "hdlc-badfcs", "hdlc-seg", "p1"])) for _ in range(min(len(items), 40))] + [None] * max(0, len(items) - 40)
     bystander = [ALL[nm] for nm in draw(st.lists(st.sampled_from(NAMES + sorted(JUNK)), min_size=1, max_size=4))] if draw(st.booleans()) else None
     return ([i[0] for i in items], [i[1] for i in items], via, bystander)
 
